@@ -42,6 +42,9 @@ def alphabet(N):
         ("SetBounds", (np.array([-0.5] * N), np.array([0.5] * N))),
         ("GetImage", 0.0),
         ("GetInverseImage", np.array([0.3 - 0.11 * i for i in range(N)], dtype=np.double)),
+        ("GetPreimages", np.array([0.45 + 0.05 * i for i in range(N)], dtype=np.double)),
+        # the caller re-uses (overwrites in place) the arrays it once handed over as bounds: the object keeps its box
+        ("CallerOverwritesItsBoundArrays", None),
     ]
     return ops
 
@@ -57,7 +60,14 @@ def argbytes(a):
 def apply(ev, op):
     name, arg = op
     before = argbytes(arg)
+    if name == "CallerOverwritesItsBoundArrays":
+        for a in getattr(ev, "_harness_handed_over", []):
+            a[...] = a * 0.5 + 7.0
+        return None, True
     if name == "SetBounds":
+        if isinstance(arg[0], np.ndarray):
+            arg = (arg[0].copy(), arg[1].copy())
+            ev._harness_handed_over = [arg[0], arg[1]]
         r = ev.SetBounds(arg[0], arg[1])
     else:
         r = getattr(ev, name)(arg)
@@ -83,7 +93,12 @@ def show(op):
 def execute(N, m, seq, ops, init="B1"):
     """replay a call sequence on one fresh object, checking the oracle at every call; -> (messages, ev)"""
     lo, up = box("B1", N) if init == "B1" else ([-1] * N, [1] * N)
-    ev = Evolvent(lo, up, N, m)
+    if init == "B1":
+        lo_arr, up_arr = np.array(lo, dtype=np.double), np.array(up, dtype=np.double)
+        ev = Evolvent(lo_arr, up_arr, N, m)
+        ev._harness_handed_over = [lo_arr, up_arr]      # the caller's own arrays
+    else:
+        ev = Evolvent(lo, up, N, m)
     cur = (np.array(lo, dtype=float), np.array(up, dtype=float))
     returned = []
     msgs = []
@@ -116,11 +131,15 @@ def execute(N, m, seq, ops, init="B1"):
     return msgs, ev
 
 
+def _state(ev):
+    return {k: v for k, v in vars(ev).items() if not k.startswith("_harness")}
+
+
 def bfs(task):
     N, m, init = task
     ops = alphabet(N)
     msgs0, ev0 = execute(N, m, [], ops, init)
-    seen = {digest(vars(ev0)): []}
+    seen = {digest(_state(ev0)): []}
     frontier = [[]]
     transitions = 0
     viol = []
@@ -136,7 +155,7 @@ def bfs(task):
                     viol.append(dict(driver="seq", N=N, m=m, init=init, seq=s2, message=msg, sig={}))
                 if msgs:
                     continue
-                d = digest(vars(ev))
+                d = digest(_state(ev))
                 if d not in seen:
                     seen[d] = s2
                     nxt.append(s2)
